@@ -4,8 +4,10 @@ import (
 	"bytes"
 	"encoding/json"
 	"fmt"
+	nurl "net/url"
 	"os"
 	"path/filepath"
+	"regexp"
 	"strings"
 	"testing"
 
@@ -110,7 +112,7 @@ func genC11Doc(t *rapid.T) c11Doc {
 			o.LogFlags = uint(rapid.IntRange(0, 31).Draw(t, "lf"))
 		}
 		return c11Doc{HTML: pg.HTML, Opts: o, Kind: "pager"}
-	case 5, 6:
+	case 5:
 		g := newG(t, carrierProfile())
 		page := g.page()
 		if rapid.Bool().Draw(t, "markup") {
@@ -118,6 +120,10 @@ func genC11Doc(t *rapid.T) c11Doc {
 			page = strings.Replace(page, "</body>", schemaSnippet+"</body>", 1)
 		}
 		return c11Doc{HTML: page, Opts: genOpts(t, 60), Kind: "article+markup"}
+	case 6:
+		// a page from the markup grammar of C14 (all OpenGraph prefix declarations, schema.org items, IE tags)
+		mc := genC14(t)
+		return c11Doc{HTML: mc.HTML, Opts: genOpts(t, 60), Kind: "markup-grammar"}
 	default:
 		g := newG(t, carrierProfile())
 		return c11Doc{HTML: g.page(), Opts: genOpts(t, 60), Kind: "article"}
@@ -155,7 +161,9 @@ func checkC11(c *Case) (*Violation, caseInfo) {
 		var out callOutcome
 		switch entry {
 		case "reader":
-			out = guarded(0, func() (*distiller.Result, error) { return distiller.ApplyForReader(strings.NewReader(d.HTML), d.Opts.Build()) })
+			out = guarded(0, func() (*distiller.Result, error) {
+				return distiller.ApplyForReader(strings.NewReader(d.HTML), d.Opts.Build())
+			})
 		case "file":
 			dir := os.Getenv("VERIF_SCRATCH")
 			if dir == "" {
@@ -226,6 +234,33 @@ func checkC11(c *Case) (*Violation, caseInfo) {
 		}
 		info.Classes = append(info.Classes, "entry:"+st.Entry)
 	}
+	// phase 3: independence from earlier calls by renaming invariance. The document has now been
+	// distilled several times with its own URL; distilling it with a sibling URL must give the same
+	// result as distilling a copy whose tokens are renamed (same lengths, different strings) with that
+	// sibling URL: state remembered per URL/reference string from the earlier calls would only hit
+	// the original.
+	for i, d := range ex.Docs {
+		if d.Opts.URL == "" || d.Opts.Nil {
+			continue
+		}
+		sib := siblingURL(d.Opts.URL)
+		if sib == "" {
+			continue
+		}
+		o := d.Opts
+		o.URL = sib
+		_, a := applyHTML(d.HTML, o)
+		_, b := applyHTML(renameTokens(d.HTML), o)
+		if a.Panicked || b.Panicked || a.Res == nil || b.Res == nil {
+			continue
+		}
+		ca, cb := canonical(a.Res), unrenameTokens(canonical(b.Res))
+		info.Classes = append(info.Classes, "renaming-invariance-checked")
+		if ca != cb {
+			return violationf("C11 depends-on-earlier-calls fields="+diffFields(cb, ca),
+				"document %d distilled with sibling URL %s after earlier calls with %s differs from a token-renamed copy distilled with the same URL (fresh strings):\n%s", i, sib, d.Opts.URL, diffCanon(cb, ca)), info
+		}
+	}
 	for _, d := range ex.Docs {
 		info.Classes = append(info.Classes, "doc:"+d.Kind)
 	}
@@ -250,3 +285,24 @@ func checkC11(c *Case) (*Violation, caseInfo) {
 }
 
 func TestC11(t *testing.T) { runProp(t, genC11, checkC11) }
+
+var rxTokRename = regexp.MustCompile(`([a-z]{1,3}[0-9]+)q\b`)
+var rxTokUnrename = regexp.MustCompile(`([a-z]{1,3}[0-9]+)z\b`)
+
+func renameTokens(s string) string   { return rxTokRename.ReplaceAllString(s, "${1}z") }
+func unrenameTokens(s string) string { return rxTokUnrename.ReplaceAllString(s, "${1}q") }
+
+// siblingURL returns a URL on the same host in another directory.
+func siblingURL(u string) string {
+	pu, err := nurl.Parse(u)
+	if err != nil || pu.Host == "" {
+		return ""
+	}
+	dir, file := "/", ""
+	if i := strings.LastIndex(pu.Path, "/"); i >= 0 {
+		dir, file = pu.Path[:i+1], pu.Path[i+1:]
+	}
+	pu.Path = dir + "zzsib/" + file
+	pu.RawPath = ""
+	return pu.String()
+}
